@@ -95,15 +95,25 @@ pub fn verif_sched_point(index: usize) {
 pub static SCHED_TARGET: std::sync::Mutex<Option<SchedTarget>> = std::sync::Mutex::new(None);
 pub struct SchedTarget {
     pub data: *const crate::EstablishedStreamData,
-    /// 0 = acknowledge(n), 1 = disallow_write()
+    /// 0 = acknowledge(n), 1 = disallow_write(), 2 = `task_fn(task, n)` (an action of the
+    /// connection task that needs private items of task.rs; a fn pointer of a signature that
+    /// nothing else in the program has)
     pub kind: u8,
     pub n: u32,
+    pub task: *const TTask,
+    pub task_fn: Option<fn(*const TTask, u32)>,
 }
 unsafe impl Send for SchedTarget {}
 pub fn sched_action() {
     let g = SCHED_TARGET.lock().unwrap();
     if let Some(t) = g.as_ref() {
         // SAFETY: the harness keeps the stream data alive for the whole run
+        if t.kind == 2 {
+            if let Some(f) = t.task_fn {
+                f(t.task, t.n);
+            }
+            return;
+        }
         let d = unsafe { &*t.data };
         if t.kind == 0 {
             d.acknowledge(t.n);
